@@ -17,4 +17,6 @@ MCClassesQ == <<
 >>
 MCKindsQ == <<"one", "nextline", "bsline">>
 MCKinds == <<"one", "title", "nextline", "multiline", "bsline", "lfref">>
+MCDKinds == <<"one", "quoted", "quotedtitle", "lazytitle", "lazydest", "listed", "listlazy">>
+MCDKindsQ == <<"one", "lazytitle", "lazydest", "listlazy">>
 =============================================================================
